@@ -152,7 +152,7 @@ def parse_fn_blocks(lines, origin):
                     m = re.match(r'^//@(sub|subsig)\s+(\w+)\s+`(.*)`\s*=>\s*`(.*)`\s*(\*|\d+|last)?\s*$', s)
                     if not m:
                         raise AssembleError('%s:%d bad //@sub' % (origin, i + 1))
-                    (fs.subs if m.group(1) == 'sub' else fs.sigsubs).append((m.group(2), m.group(3), m.group(4).replace('\\n', '\n'), m.group(5)))
+                    (fs.subs if m.group(1) == 'sub' else fs.sigsubs).append((m.group(2), m.group(3).replace('\\n', '\n'), m.group(4).replace('\\n', '\n'), m.group(5)))
                     cur = None
                 elif s.startswith('//@entry'):
                     cur = []
